@@ -216,6 +216,9 @@ def _(E, m, a, c0):
     it = E.deref(a[0]); items, pos = it.fields[0], it.fields[1]
     if pos >= len(items.fields): return opt()
     E.wr(a[0], Adt('Iter', None, [items, pos + 1, it.fields[2]])); return opt(items.fields[pos])
+@pattern(HM + r'::clear')
+def _(E, m, a, c0):
+    E.wr(_mapref(E, a[0]), hm()); return UNIT
 @pattern(HM + r'::remove_entry')
 def _(E, m, a, c0):
     mr = _mapref(E, a[0]); i = find(E, mr, a[1]); mp = E.deref(mr)
